@@ -394,6 +394,176 @@ def _nest(pq, inner, d):
     return outer
 
 
+# ---------------------------------------------------------------------------- caller-owned arrays
+def _stochastic_columns(rng, n):
+    """Column-stochastic matrix whose column sums are 1 only to rounding (float division): an in-place re-normalisation of
+    the caller's array changes its bits."""
+    a = rng.uniform(0.05, 1.0, size=(n, n))
+    a = np.triu(a)  # detectors never report more photons than arrived
+    return a / a.sum(axis=0)
+
+
+def array_parameter_programs(pq, rng):
+    """(label, simulator factory, program builder) triples covering the instructions that take arrays, with every array
+    given as an ndarray of the Config's own dtype (a no-copy `asarray` aliases the caller's array). The builder returns
+    (program, {name: caller's array})."""
+    from vf.gen import matrices as M
+
+    d = 3
+    U = M.haar_unitary(rng, d)
+    T, _sv = M.transmission_matrix(rng, d)
+    P, A = M.symplectic_blocks(rng, 2, rmax=0.3)
+    mean, cov = M.physical_gaussian(rng, d, 1.0)
+    idx = M.xxpp_to_xpxp(d)
+    gram = M.random_gram(rng, 3)[0]
+    out = []
+
+    def passive_imperfect():
+        arr = {"occ": np.array([1, 1, 1]), "U": U.copy(), "loss": np.array([0.8]), "eff": _stochastic_columns(rng, 4)}
+        with pq.Program() as p:
+            pq.Q() | pq.NumberState(arr["occ"])
+            pq.Q(2, 0, 1) | pq.Interferometer(arr["U"])
+            pq.Q(1) | pq.Loss(arr["loss"])
+            pq.Q() | pq.ImperfectParticleNumberMeasurement(arr["eff"])
+        return p, arr
+
+    def passive_lossy_dist():
+        arr = {"T": T.copy(), "gram": gram.copy()}
+        with pq.Program() as p:
+            pq.Q() | pq.DistinguishableNumberState([1, 1, 1], particle_overlap=arr["gram"])
+            pq.Q() | pq.LossyInterferometer(arr["T"])
+            pq.Q() | pq.ParticleNumberMeasurement()
+        return p, arr
+
+    def purefock_zoo():
+        arr = {"U": U.copy(), "P": P.copy(), "A": A.copy(), "theta": rng.uniform(-1, 1, size=5), "eff": _stochastic_columns(rng, 5)}
+        with pq.Program() as p:
+            pq.Q() | pq.StateVector([1, 0, 1])
+            pq.Q(1, 2, 0) | pq.Interferometer(arr["U"])
+            pq.Q(2, 0) | pq.GaussianTransform(passive=arr["P"], active=arr["A"])
+            pq.Q(1) | pq.SNAP(arr["theta"])
+            pq.Q(0, 2) | pq.ImperfectParticleNumberMeasurement(arr["eff"])
+        return p, arr
+
+    def purefock_postselect():
+        arr = {"U": U.copy(), "eff": _stochastic_columns(rng, 5)}
+        with pq.Program() as p:
+            pq.Q() | pq.StateVector([1, 1, 0])
+            pq.Q() | pq.Interferometer(arr["U"])
+            pq.Q(1) | pq.ImperfectPostSelectPhotons(photon_counts=(1,), detector_efficiency_matrix=arr["eff"])
+            pq.Q(0, 2) | pq.ParticleNumberMeasurement()
+        return p, arr
+
+    def fock_zoo():
+        arr = {"U": U.copy(), "eff": _stochastic_columns(rng, 5)}
+        with pq.Program() as p:
+            pq.Q() | pq.DensityMatrix(ket=(1, 0, 1), bra=(1, 0, 1))
+            pq.Q(1, 2, 0) | pq.Interferometer(arr["U"])
+            pq.Q(0) | pq.Squeezing(r=0.1, phi=0.3)
+            pq.Q() | pq.ImperfectParticleNumberMeasurement(arr["eff"])
+        return p, arr
+
+    def gaussian_zoo(meas):
+        def build():
+            arr = {"mean": (mean[idx] / np.sqrt(2.0)).copy(), "cov": cov[np.ix_(idx, idx)].copy(), "U": U.copy(), "P": P.copy(), "A": A.copy(),
+                   "X": np.eye(2) * 0.9, "Y": np.eye(2) * 0.19, "dc": np.array([[0.7, 0.1], [0.1, 1.6]]), "eff": _stochastic_columns(rng, 5)}
+            with pq.Program() as p:
+                pq.Q() | pq.Vacuum()
+                pq.Q() | pq.Mean(arr["mean"])
+                pq.Q() | pq.Covariance(arr["cov"])
+                pq.Q(2, 1, 0) | pq.Interferometer(arr["U"])
+                pq.Q(0, 2) | pq.GaussianTransform(passive=arr["P"], active=arr["A"])
+                pq.Q(1) | pq.DeterministicGaussianChannel(X=arr["X"], Y=arr["Y"])
+                if meas == "generaldyne":
+                    pq.Q(2, 0) | pq.GeneraldyneMeasurement(detection_covariance=arr["dc"])
+                elif meas == "imperfect":
+                    pq.Q(0, 1) | pq.ImperfectParticleNumberMeasurement(arr["eff"])
+                elif meas == "threshold":
+                    pq.Q() | pq.ThresholdMeasurement()
+                else:
+                    pq.Q(1) | pq.HomodyneMeasurement(phi=0.3)
+            return p, arr
+        return build
+
+    def gaussian_graph():
+        a = rng.normal(size=(3, 3))
+        arr = {"adj": a + a.T, "nbar": np.array([0.3, 0.1, 0.2])}
+        with pq.Program() as p:
+            pq.Q() | pq.Thermal(arr["nbar"])
+            pq.Q() | pq.Graph(arr["adj"])
+            pq.Q() | pq.ParticleNumberMeasurement()
+        return p, arr
+
+    def fermionic(simname):
+        def build():
+            h = rng.normal(size=(6, 6)) + 1j * rng.normal(size=(6, 6))
+            A_ = rng.normal(size=(3, 3)) + 1j * rng.normal(size=(3, 3))
+            B_ = rng.normal(size=(3, 3)) + 1j * rng.normal(size=(3, 3))
+            A_, B_ = A_ + A_.conj().T, B_ - B_.T
+            arr = {"H": np.block([[-A_.conj(), B_], [-B_.conj(), A_]]), "U": U.copy()}
+            with pq.Program() as p:
+                pq.Q() | pq.StateVector([1, 0, 1])
+                if simname == "fgaussian":
+                    pq.Q() | pq.fermionic.GaussianHamiltonian(arr["H"])
+                pq.Q() | pq.Interferometer(arr["U"])
+                pq.Q() | pq.ParticleNumberMeasurement()
+            return p, arr
+        return build
+
+    cfg = lambda **kw: pq.Config(seed_sequence=int(rng.integers(1, 2 ** 31)), **kw)  # noqa: E731
+    out.append(("passive:imperfect", lambda: pq.PassiveSimulator(d=3, config=cfg()), passive_imperfect))
+    out.append(("passive:lossy-distinguishable", lambda: pq.PassiveSimulator(d=3, config=cfg(cutoff=4)), passive_lossy_dist))
+    out.append(("purefock:zoo", lambda: pq.PureFockSimulator(d=3, config=cfg(cutoff=5)), purefock_zoo))
+    out.append(("purefock:imperfect-postselect", lambda: pq.PureFockSimulator(d=3, config=cfg(cutoff=4)), purefock_postselect))
+    out.append(("fock:zoo", lambda: pq.FockSimulator(d=3, config=cfg(cutoff=4)), fock_zoo))
+    for meas in ("generaldyne", "imperfect", "threshold", "homodyne"):
+        out.append(("gaussian:%s" % meas, lambda: pq.GaussianSimulator(d=3, config=cfg(hbar=1.0, measurement_cutoff=4, validate=bool(rng.random() < 0.3))),
+                    gaussian_zoo(meas)))  # validate=False mostly: the channel validation refuses valid channels (known finding, C13)
+    out.append(("gaussian:graph", lambda: pq.GaussianSimulator(d=3, config=cfg(measurement_cutoff=4)), gaussian_graph))
+    out.append(("ffock:hamiltonian", lambda: pq.fermionic.PureFockSimulator(d=3, config=cfg()), fermionic("ffock")))
+    out.append(("fgaussian:hamiltonian", lambda: pq.fermionic.GaussianSimulator(d=3, config=cfg()), fermionic("fgaussian")))
+    return out
+
+
+def caller_arrays(ctx, pq, rng, rounds):
+    """Executes each array-parameter program with finite shots and with shots=None; the caller's arrays must be bit-identical
+    afterwards (return or raise), and so must the program's fingerprint."""
+    from vf.monitors import fingerprint as F
+
+    for r in range(rounds):
+        for label, make_sim, build in array_parameter_programs(pq, rng):
+            for shots in (int(rng.choice([1, 7, 60])), None):
+                try:
+                    prog, arrs = build()
+                    sim = make_sim()
+                except Exception as e:
+                    ctx.obs.add("array program %s could not be built: %s: %s" % (label, type(e).__name__, str(e)[:80]))
+                    continue
+                before = {k: (v.tobytes(), v.dtype.str, v.shape, v.flags.writeable) for k, v in arrs.items()}
+                fp = F.program_view(prog)
+                ctx.evals += 1
+                try:
+                    sim.execute(prog, shots=shots)
+                    how = "returned"
+                except Exception as e:
+                    how = "raised %s" % type(e).__name__
+                    ctx.obs.add("array program %s shots=%s raised %s: %s" % (label, shots, type(e).__name__, str(e)[:80]))
+                ctx.c["caller_array_executions"] = ctx.c.get("caller_array_executions", 0) + 1
+                ctx.c["fingerprint_comparisons"] += 1
+                ctx.classes.add("arrays:%s:%s:%s" % (label, "shots" if shots else "exact", how.split()[0]))
+                case = {"kind": "arrays", "label": label, "shots": shots, "what": "%s shots=%s %s" % (label, shots, how)}
+                for k, v in arrs.items():
+                    ctx.c["caller_arrays_compared"] = ctx.c.get("caller_arrays_compared", 0) + 1
+                    now = (v.tobytes(), v.dtype.str, v.shape, v.flags.writeable)
+                    if now != before[k]:
+                        changed = int(np.sum(np.frombuffer(now[0], dtype=np.uint8) != np.frombuffer(before[k][0], dtype=np.uint8))) if len(now[0]) == len(before[k][0]) else -1
+                        ctx.viol("caller-array-modified:%s:%s" % (label, k), "%s (shots=%s, %s): the caller's array '%s' changed (%d bytes differ)" % (
+                            label, shots, how, k, changed), case)
+                dp = F.diff(fp, F.program_view(prog))
+                if dp:
+                    ctx.viol(_mech_for_paths(dp, "after-array-program"), "%s: program differs at %s" % (case["what"], dp[:6]), case)
+
+
 # ---------------------------------------------------------------------------- kernels
 def kernel_immutability(ctx, pq, rng, count):
     from vf.monitors import fingerprint as F
@@ -486,6 +656,7 @@ def plan(tier, seed):
     specs.append({"name": "kernels", "kind": "kernels", "shard": 90, "count": 12 if tier == "quick" else 80})
     specs.append({"name": "api", "kind": "api", "shard": 91, "count": 12 if tier == "quick" else 60})
     specs.append({"name": "genuine", "kind": "genuine", "shard": 92, "count": 24 if tier == "quick" else 150})
+    specs.append({"name": "arrays", "kind": "arrays", "shard": 93, "count": 3 if tier == "quick" else 25})
     return specs
 
 
@@ -520,6 +691,8 @@ def run_shard(spec):
                     ins.pop("when", None)
                     ins.pop("when_call", None)
             api_calls(ctx, pq, doc)
+    elif spec["kind"] == "arrays":
+        caller_arrays(ctx, pq, rng, int(spec["count"]))
     elif spec["kind"] == "genuine":
         for i in range(int(spec["count"])):
             sim = SIMS[i % len(SIMS)]
